@@ -109,8 +109,19 @@ def finish_case(path):
         case = json.loads(f.readline())
     fam, dim = case["fam"], case["dim"]
     L = case["levels"]
-    case["par"] = [parents(L[l], L[l + 1], fam, dim) for l in range(len(L) - 1)]
-    case["geo"] = geo_exact(case)
+    # a dump that is inconsistent in itself (e.g. entity counts that disagree with the containers) must reach the
+    # specification, which then rejects it (WellFormed / ParentsExist): no certificate rather than a glue-code crash
+    par = []
+    for l in range(len(L) - 1):
+        try:
+            par.append(parents(L[l], L[l + 1], fam, dim))
+        except (IndexError, KeyError, TypeError):
+            par.append([])
+    case["par"] = par
+    try:
+        case["geo"] = geo_exact(case)
+    except (IndexError, KeyError, TypeError, ValueError):
+        case["geo"] = False
     return case
 
 
